@@ -21,8 +21,8 @@ ASSUMPTIONS = [
     'residue is read from Manager._handlers/_tasks through getattr; if absent the clause is judged by firing the temporary names',
 ]
 
-LEAF = ['R', 'N', 'X', 'G1', 'G2', 'GX0', 'GX1', 'RG', 'XG', 'GA', 'GB', 'NOH']
-CALLER = ['call', 'waitn', 'waito', 'call2', 'cally', 'ycall']
+LEAF = ['R', 'N', 'X', 'G1', 'G2', 'GX0', 'GX1', 'RG', 'XG', 'GA', 'GB', 'NOH', 'R0', 'G0']
+CALLER = ['call', 'waitn', 'waito', 'call2', 'cally', 'ycall', 'cally0']
 SLOW = ['S0', 'S1', 'S2', 'S3', 'S4']   # callee lasting k loop iterations (timeout programs)
 
 
@@ -36,6 +36,10 @@ def leaf_handlers(level, shape):
         return [(h, t, 2, [('ret', b + 1)])]
     if shape == 'N':
         return [(h, t, 2, [('ret', None)])]
+    if shape == 'R0':    # a falsy result is a result
+        return [(h, t, 2, [('ret', 0)])]
+    if shape == 'G0':
+        return [(h, t, 2, ('gen', [('y', 0)]))]
     if shape == 'X':
         return [(h, t, 2, [('raise',)])]
     if shape == 'G1':
@@ -77,6 +81,7 @@ def caller_handlers(level, shape, opts=None):
         'call2': [('call', nxt, o), ('call', nxt, o)],
         'cally': [('call', nxt, o), ('y', b + 9)],
         'ycall': [('y', None), ('call', nxt, o)],
+        'cally0': [('call', nxt, o), ('y', 0)],      # the caller's own result, produced right after being resumed, is falsy
         'waitnever': [('waitn_never', 'never', o)],
     }[shape]
     return [(h, t, 2, ('gen', steps))]
